@@ -66,7 +66,8 @@ def units(tier, seed):
                 if kinds[2] not in ("unit", "lower"):
                     continue
             for fl in FLAGSETS:
-                us.append({"kind": "vector", "names": names_all[:n], "kinds": list(kinds), "flags": list(fl)})
+                us.append({"kind": "vector", "names": names_all[:n], "kinds": list(kinds), "flags": list(fl),
+                           "differential": (tier != "quick") or n <= 1 or list(fl) == [True, True, True]})
     if tier != "quick":
         # 4 names, all 'unit' / mixed, one flag set each
         us.append({"kind": "vector", "names": names_all[:4], "kinds": ["unit", "free", "lower", "upper"], "flags": [True, True, True], "small": True})
@@ -106,6 +107,8 @@ def observe(v):
         "names": tuple(str(s) for s in v.names), "hitbounds": bool(v.hitbounds),
         "check_bounds": bool(v.check_bounds), "check_hitbounds": bool(v.check_hitbounds),
         "accept_nan": bool(v.accept_nan), "nval": int(v.nval),
+        # hidden state made visible: does the value array share memory with construction data?
+        "alias": tuple(bool(v.nval) and bool(np.shares_memory(v.values, a)) for a in (v.defaults, v.mins, v.maxs)),
         "dict": (int(d["nval"]), bool(d["hitbounds"]), bool(d["check_bounds"]), bool(d["check_hitbounds"]),
                  bool(d["accept_nan"]),
                  tuple((str(e["name"]), nanfix(float(e["value"])), float(e["min"]), float(e["max"]), float(e["default"]))
@@ -114,7 +117,7 @@ def observe(v):
 
 
 def state_key(obs):
-    return (obs["values"], obs["hitbounds"], obs["check_bounds"], obs["check_hitbounds"], obs["accept_nan"])
+    return (obs["values"], obs["hitbounds"], obs["check_bounds"], obs["check_hitbounds"], obs["accept_nan"], obs["alias"])
 
 
 def ops_for(unit):
@@ -331,6 +334,9 @@ def check_transition(ctx, unit, cfg, history, op, prev_obs, case_extra=None):
         if obs[f] != prev_obs[f] or obs[f] != cfg["obs0"][f]:
             ctx.violation("vector:%s:construction-data-changed:%s" % (kindtag, f), case,
                           "%s changed from %r to %r" % (f, cfg["obs0"][f], obs[f]))
+    if any(obs["alias"]):
+        ctx.violation("vector:%s:values-alias-construction-data" % kindtag, case,
+                      "after the operation the value array shares memory with (defaults, mins, maxs) = %s: a later element assignment would change them" % (obs["alias"],))
     nontriv = True
     if exp is None:
         if exc is None and not isinstance(res, tuple):
@@ -397,19 +403,56 @@ def run_vector_unit(unit, ctx):
     ctx.case(False, n=0, sample={"kind": "vector", "unit": {k: unit[k] for k in ("names", "kinds", "flags")},
                                  "history": [], "op": op_json(ops[0])})
     maxdepth = 0
+    succ = {}          # (state key, op index) -> observed successor from the canonical history
+    alts = {}          # state key -> {last op kind: alternative history}
     while frontier:
         key = frontier.popleft()
         hist, obs = seen[key]
-        for op in ops:
+        for oi, op in enumerate(ops):
             nobs = check_transition(ctx, unit, cfg, hist, op, obs)
             if nobs is None:
                 continue
+            succ[(key, oi)] = nobs
             k = state_key(nobs)
             if k not in seen:
                 seen[k] = (hist + [op], nobs)
                 frontier.append(k)
                 maxdepth = max(maxdepth, len(hist) + 1)
+            else:
+                chist = seen[k][0]
+                lastkind = chist[-1][0] if chist else "init"
+                if op[0] != lastkind:
+                    alts.setdefault(k, {}).setdefault(op[0], hist + [op])
     ctx.states += len(seen)
+    # differential oracle: a state reached by a different route (different kind of last operation) must have
+    # the same futures as the same observable state reached by its canonical (shortest) history
+    if unit.get("differential", True):
+        for k, byk in alts.items():
+            for kind, ahist in byk.items():
+                for oi, op in enumerate(ops):
+                    ref = succ.get((k, oi))
+                    if ref is None:
+                        continue
+                    try:
+                        w = rebuild(unit, ahist)
+                        res, exc, extra = apply_op(w, op)
+                        if isinstance(res, tuple):
+                            w = step_object(rebuild(unit, ahist), op)
+                        o2 = observe(w)
+                    except Exception as e:
+                        o2 = {"error": repr(e)}
+                    ctx.traces += 1
+                    ctx.transitions += 1
+                    ctx.case(True, outcome=hash((k, oi, kind)))
+                    ctx.count("vector.differential_transitions")
+                    if o2 != ref:
+                        diff = sorted(f for f in ref if o2.get(f) != ref[f])
+                        case = {"kind": "vector-diff", "unit": {q: unit[q] for q in ("names", "kinds", "flags")},
+                                "history": [op_json(o) for o in ahist], "canonical": [op_json(o) for o in seen[k][0]], "op": op_json(op)}
+                        ctx.violation("vector:history-dependent:after-%s:then-%s:%s" % (kind, op[0], "+".join(diff)), case,
+                                      "the same observable state reached through %s and through %s behaves differently under %s: %s vs %s" % (
+                                          [op_json(o) for o in ahist], [op_json(o) for o in seen[k][0]], op_json(op),
+                                          {f: o2.get(f) for f in diff}, {f: ref[f] for f in diff}))
     ctx.counters["vector.sum_over_configs_of_bfs_depth"] = max(ctx.counters.get("vector.sum_over_configs_of_bfs_depth", 0), maxdepth)
 
 
@@ -549,7 +592,20 @@ def run_unit(unit, ctx):
 def replay(case):
     from mc.explore import Result
     ctx = Result()
-    if case["kind"] == "vector":
+    if case["kind"] == "vector-diff":
+        unit = dict(case["unit"]); unit["kind"] = "vector"
+        op = op_from_json(case["op"])
+        outs = []
+        for h in (case["history"], case["canonical"]):
+            hist = [op_from_json(o) for o in h]
+            w = rebuild(unit, hist)
+            res, exc, extra = apply_op(w, op)
+            if isinstance(res, tuple):
+                w = step_object(rebuild(unit, hist), op)
+            outs.append(observe(w))
+        if outs[0] != outs[1]:
+            ctx.violation("vector:history-dependent", case, "futures differ: %s vs %s" % (outs[0], outs[1]))
+    elif case["kind"] == "vector":
         unit = dict(case["unit"])
         unit["kind"] = "vector"
         hist = [op_from_json(o) for o in case["history"]]
